@@ -96,7 +96,7 @@ func (ch *ConnectionHandler) acceptStream() {
 			}
 			return
 		}
-		stream = streams.NewNamedConnection(stream, stream.RemoteAddr().String())
+		stream = streams.NewNamedConnection(streams.NewDrainedStream(stream), stream.RemoteAddr().String())
 		log.Debugf("[Server] New logical connection accepted: %v", stream)
 		verifhook.At("server.stream.accepted")
 
